@@ -1,6 +1,9 @@
 // C08: key switching preserves the phase up to the round-to-nearest truncation of each mask coefficient
 //      (exact on a noiseless harness-built key, exhaustive over a mask coefficient) plus the noise of the rows used
 #include "vh.hpp"
+#include <thread>
+#include <atomic>
+#include <sched.h>
 VH_MAIN_GLOBALS
 using namespace vh;
 
@@ -146,6 +149,36 @@ static void exact_multi(int t, int bb, int n_in, int n_out, int reps) {
     delete_LweParams(Pin);
 }
 
+// several threads key-switch at the same time, each with its own key of its own decomposition and dimensions (keys built beforehand
+// on the main thread); every result is judged by the exact form "removed part is a multiple of the unit, error within w/2 units"
+static void threads_mode(uint64_t seed, int T, int iters) {
+    struct Cfg { int t, bb, n_in, n_out; }; const Cfg cfgs[] = {{8, 2, 40, 7}, {5, 3, 64, 17}, {2, 8, 33, 5}, {1, 1, 20, 3}, {4, 4, 16, 9}, {15, 2, 24, 4}, {3, 5, 48, 2}, {16, 1, 17, 8}, {10, 3, 30, 6}, {2, 15, 12, 5}, {31, 1, 9, 3}, {6, 5, 21, 1}};
+    std::vector<NoiselessKS *> keys; for (int t = 0; t < T; t++) { const Cfg &c = cfgs[t % 12]; keys.push_back(new NoiselessKS(c.n_in, c.n_out, c.t, c.bb)); keys.back()->fill(); }
+    std::atomic<uint64_t> bad{0}, calls{0}; std::atomic<int> ready{0}; std::vector<int> wit(T, -1);
+    std::vector<std::thread> th;
+    for (int t = 0; t < T; t++) th.emplace_back([&, t] {
+        NoiselessKS &K = *keys[t]; Rng r(seed * 6151 + t); const int tb = K.t * K.basebit; const U unit = (U) 1 << (32 - tb), halfu = unit >> 1;
+        LweParams *Pin = new_LweParams(K.n_in, 0, 0.25); LweSample *x = new_LweSample(Pin), *y = new_LweSample(K.P);
+        int w = 0; for (int q: K.s_in) w += q;
+        ready++; while (ready.load() < T) sched_yield();
+        for (int it = 0; it < iters; it++) {
+            for (int i = 0; i < K.n_in; i++) { int cls = (int) r.below(4); x->a[i] = (int32_t) (cls == 0 ? r.u32() : cls == 1 ? (r.u32() << (32 - tb)) + halfu + (U) r.range(-1, 1) : cls == 2 ? 0xFFFFFFFFu - (U) r.below(4) : (U) r.below(unit)); }
+            x->b = r.i32(); x->current_variance = 0;
+            lweKeySwitch(y, K.ks, x);
+            U ph = ref_lwe_phase(y, K.s_out.data(), K.n_out), R = (U) x->b - ph, sa = 0; for (int i = 0; i < K.n_in; i++) sa += (U) K.s_in[i] * (U) x->a[i];
+            int32_t err = (int32_t) (sa - R); calls++;
+            if ((R & (unit - 1)) != 0 || iabs64(err) > (int64_t) w * (int64_t) halfu) { if (bad++ == 0) wit[t] = it; }
+        }
+        delete_LweSample(y); delete_LweSample(x); delete_LweParams(Pin);
+    });
+    for (auto &x: th) x.join();
+    out.evaluations += calls.load();
+    if (bad.load()) for (int t = 0; t < T; t++) if (wit[t] >= 0) { const Cfg &c = cfgs[t % 12]; out.viol("ks-exact:when-threads-use-different-keys:" + lay(c.t, c.bb), J().i("t", c.t).i("basebit", c.bb).i("n_in", c.n_in).i("n_out", c.n_out).i("threads", T).u("bad_results", bad.load())); break; }
+    char cell[96]; snprintf(cell, sizeof cell, "threads:%d-threads-each-with-its-own-key-and-decomposition", T); out.cell(cell, calls.load());
+    for (auto *k: keys) delete k;
+    out.sample(J().s("mode", "threads").i("threads", T).i("key_switches_per_thread", iters));
+}
+
 // real noisy key from lweCreateKeySwitchKey: error statistics over K samples against the noise of the actual rows
 static void noisy(int t, int bb, int n_in, int n_out, double alpha, int Ksamples, uint64_t seed) {
     const int tb = t * bb; const int base = 1 << bb;
@@ -229,6 +262,7 @@ int main(int argc, char **argv) {
         NoiselessKS::array_element = save;
         out.cell("history:other-decomposition-used-first-in-this-process");
     }
+    if (mode == "threads") { threads_mode(seed, args.i("threads", 12), args.i("iters", 3000)); out.finish(); return 0; }
     if (mode == "exact") {
         int lg = args.i("log2count", 24);
         exact_sweep(t, bb, n_out, lg, shard, nshards, args.has("translate"));
